@@ -387,6 +387,75 @@ JudgeEmit(tr, T, ev) ==
   }
 
 (***************************************************************************)
+(* EVO script commands (C13, C10): evo_aspirate, evo_dispense, evo_wash    *)
+(***************************************************************************)
+InRange(n, lo, hi) == n.cls = "int" /\ n.v >= lo /\ n.v <= hi
+
+JudgeEvo(tr, T, ev) ==
+  LET a == ev.a  k == a.lw  L == T.lw[k]  g == L.g  post == ev.post  F == tr.flags
+      ws == FlattenF(a.wells)  n == Len(ws)
+      v0 == FlattenF(a.vols)
+      vs == Broadcast(v0, n)
+      tipsok == \A i \in 1..Len(a.tips) : SymValid(a.tips[i])
+      tn == TipNumbers(a.tips)
+      wellsok == WellsValid(g, ws)
+      shaped == /\ n >= 1 /\ Len(a.tips) = n /\ (Len(v0) = 1 \/ Len(v0) = n)
+      onecol == \A i \in 1..n : ws[i][2] = ws[1][2]
+      distinct == Cardinality(Range(ws)) = n /\ Cardinality(Range(tn)) = n
+      \* ascending tips serve ascending wells: the given assignment must be order preserving
+      isomorphic == \A i, j \in 1..n : (tn[i] < tn[j]) <=> (ws[i][1] < ws[j][1])
+      canonical == \A i \in 1..(n - 1) : tn[i] < tn[i + 1] /\ ws[i][1] < ws[i + 1][1]
+      numsok == /\ InRange(a.grid, 1, 67) /\ InRange(a.site, 1, 128) /\ InRange(a.arm, 0, 1)
+                /\ \A i \in 1..Len(vs) : vs[i] >= 0 /\ vs[i] <= T.wlmax
+                /\ TextOK(a.lc, FALSE)
+      expressible == wellsok /\ tipsok /\ shaped /\ onecol /\ distinct /\ isomorphic /\ numsok
+      isAsp == ev.op = "evo_aspirate"
+      rr == RemoveRun(L, vol[k], ws, vs, 1)
+      ra == AddRun(L, vol[k], TrackedComp(tr)[k], ws, vs, Unknown(n), 1)
+      feasible == wellsok /\ shaped /\ (IF isAsp THEN rr.out = "ok" ELSE ra.out = "ok")
+      ok == ev.out = "ok"
+      cmds == SelectSeq(ev.recs, LAMBDA r : r.t \in {"BA", "BD"})
+      c == cmds[1]
+      rb == Run(T, vol, TrackedComp(tr), ev.recs)
+  IN {
+    Cl("C13.accept", expressible /\ canonical /\ feasible /\ a.labelok, ok),
+    Cl("C13.reject", ~expressible /\ wellsok /\ shaped, ~ok /\ cmds = <<>>),
+    Cl("C13.rejectshape", wellsok /\ ~shaped /\ tipsok, ~ok /\ cmds = <<>>),
+    Cl("C13.tracking", ok /\ feasible, post.vol[k] = (IF isAsp THEN rr.vol ELSE ra.vol)),
+    Cl("C13.onecommand", ok, Len(cmds) = 1 /\ Len(Body(ev.recs)) = 1 /\ cmds[1].t = (IF isAsp THEN "BA" ELSE "BD")),
+    Cl("C13.wellformed", ok /\ Len(cmds) = 1, c.ok /\ c.nargs = 20 /\ c.tail = <<0, 0, 0, 0>> /\ c.spacing = 1 /\ c.opt = 0),
+    Cl("C13.delta", ok /\ Len(cmds) = 1 /\ F.robot, rb.err = "" /\ rb.vol = post.vol),
+    Cl("C13.echo", ok /\ Len(cmds) = 1,
+       c.lc = a.lc.s /\ c.arm = a.arm.v /\ c.grid = a.grid.v /\ c.site = a.site.v - 1),
+    Cl("C10.evomask", ok /\ Len(cmds) = 1 /\ tipsok, c.mask = MaskOfSet(Range(tn))),
+    Cl("C10.evoslots", ok /\ Len(cmds) = 1 /\ tipsok /\ shaped,
+       /\ \A i \in 1..n : c.vols[tn[i]] = vs[i] * T.unitc
+       /\ \A t \in (1..8) \ Range(tn) : c.vols[t] = 0),
+    Cl("C03.evostep", Len(cmds) >= 1, \A t \in 1..8 : c.vols[t] <= T.wlmaxc),
+    Cl("C09.comment", ok /\ a.labelok, CommentTexts(ev.recs) = (IF a.label.h THEN CommentRecords(a.label.lines) ELSE <<>>)),
+    Cl("C11.count", live /\ ok, post.hn[k] = hn[k] + 1),
+    Cl("C11.label", live /\ ok, LabelOK(post.last[k], a.label))
+  }
+
+JudgeEvoWash(tr, T, ev) ==
+  LET a == ev.a  ok == ev.out = "ok"
+      tipsok == \A i \in 1..Len(a.tips) : SymValid(a.tips[i])
+      valid == /\ tipsok /\ InRange(a.wg, 1, 67) /\ InRange(a.ws, 1, 128) /\ InRange(a.cg, 1, 67) /\ InRange(a.cs, 1, 128)
+               /\ InRange(a.arm, 0, 1) /\ a.wv >= 0 /\ a.wv <= 10000 /\ a.cv >= 0 /\ a.cv <= 10000
+               /\ InRange(a.wdelay, 0, 1000) /\ InRange(a.cdelay, 0, 1000) /\ InRange(a.airgap, 0, 100)
+               /\ InRange(a.aspeed, 1, 1000) /\ InRange(a.rspeed, 1, 100) /\ InRange(a.fast, 0, 1) /\ InRange(a.low, 0, 1)
+      cmds == SelectSeq(ev.recs, LAMBDA r : r.t = "BW")
+      c == cmds[1]
+  IN {
+    Cl("C13.wash.ok", valid,
+       /\ ok /\ Len(ev.recs) = 1 /\ Len(cmds) = 1 /\ c.ok /\ c.nargs = 16
+       /\ c.ints = <<MaskOfSet(Range(TipNumbers(a.tips))), a.wg.v, a.ws.v - 1, a.cg.v, a.cs.v - 1, a.wdelay.v, a.cdelay.v,
+                     a.airgap.v, a.aspeed.v, a.rspeed.v, a.fast.v, a.low.v, 1000, a.arm.v>>
+       /\ c.wv = (a.wv + 5) \div 10 /\ c.cv = (a.cv + 5) \div 10),
+    Cl("C13.wash.bad", ~valid, ~ok /\ ev.recs = <<>>)
+  }
+
+(***************************************************************************)
 (* Saving (C17): save(path), leaving the with-block, entering it, str().   *)
 (***************************************************************************)
 CpLines(recs) == [i \in 1..Len(recs) |-> recs[i].cp]
@@ -414,6 +483,8 @@ JudgeEvent(tr, T, ev) ==
           [] ev.op = "distribute" -> JudgeDistribute(tr, T, ev)
           [] ev.op \in {"save", "exit", "enter", "str"} -> JudgeFile(tr, T, ev)
           [] ev.op = "emit" -> JudgeEmit(tr, T, ev)
+          [] ev.op \in {"evo_aspirate", "evo_dispense"} -> JudgeEvo(tr, T, ev)
+          [] ev.op = "evo_wash" -> JudgeEvoWash(tr, T, ev)
           [] OTHER -> {Cl("machinery.unknown_op", TRUE, FALSE)})
   \cup (IF tr.pair THEN JudgePair(tr, ev) ELSE {})
 
